@@ -325,15 +325,19 @@ class ActivityPlugin(Plugin):
 
     def is_session_modified(self, session):
         """
-        Return that the session has been modified if the session contains an
-        activity class.
+        Return that the session has been modified if the session contains a
+        pending activity.
 
         :param session: SQLAlchemy session object
         """
-        return any(isinstance(obj, self.activity_cls) for obj in session)
+        return any(isinstance(obj, self.activity_cls) for obj in session.new)
 
     def before_flush(self, uow, session):
-        for obj in session:
+        # Only activities that are about to be inserted get stamped. An
+        # activity that was flushed earlier keeps the transaction and the
+        # version pointers it was created with, even if the application still
+        # holds it in the session.
+        for obj in session.new:
             if isinstance(obj, self.activity_cls):
                 obj.transaction = uow.current_transaction
                 obj.calculate_target_tx_id()
